@@ -39,6 +39,7 @@ RULE = ("histories of register(resource) / unregister(resource) / register_funct
         "class -> allowed handlers.  non-trivial = the history contains an unregister(resource) that returned and "
         "removed a handler the model knew to be installed, followed by a dispatch of that class or a "
         "register / register_function naming that class; distinct by (kind, op list).")
+RULE += (" " + 'dupres / nested parts: resources carrying two handlers for one class (also inherited, also postponed string annotations), and message classes nested inside other classes (same __name__, different __qualname__).')
 ASSUMPTIONS = [
     "handlers are looked up by class name (documented limitation in register_function): all message classes have unique names",
     "where the property is silent (partial effect of a refused register(); unregister() of a resource whose class another "
